@@ -54,6 +54,7 @@ pub fn bounds(tier: Tier) -> Vec<ConvBound> {
         ],
         Tier::Thorough => vec![
             mk(Fam::Txt, 1, vec![rcu(1, true, false), rcu(2, true, false)], 4, 0),
+            mk(Fam::Rtx, 0, vec![rcu(1, true, false), rcu(2, true, false)], 3, 0),
             mk(Fam::Txt, 0, vec![rcu(1, true, false), rcu(2, false, false)], 5, 0),
             mk(Fam::Txt, 0, vec![rcu(1, true, false), rcu(2, true, false), rcu(3, true, false)], 4, 0),
             mk(Fam::Uni, 1, vec![rcu(1, true, true), rcu(2, true, false)], 3, 0),
